@@ -8,3 +8,4 @@ import CliUtils.Props.C14
 import CliUtils.Props.C07
 import CliUtils.Props.C08
 import CliUtils.Props.C09
+import CliUtils.Props.C16
